@@ -68,7 +68,7 @@ manifest = {
         "add_only": True,
     },
     "engines": [
-        {"name": "vp-shuttle", "path": "/verif/harness-shuttle", "serves_properties": ["C22"], "kind_free_text": "Rust binary built by ./check C22: the library's batch sources rebuilt from /repo's working tree on shuttle primitives (build.rs substitution, no change in /repo); random, PCT and bounded depth-first schedules; driven and judged by vp (sub-check shuttle-schedules)"},
+        {"name": "vp-shuttle", "path": "/verif/harness-shuttle", "serves_properties": ["C22", "C29"], "kind_free_text": "Rust binaries built by ./check C22|C29 (vp-shuttle, vp-shuttle-c29): the library's batch sources and memory/cache.rs rebuilt from /repo's working tree on shuttle primitives (build.rs substitution, no change in /repo); random, PCT and bounded depth-first schedules; driven and judged by vp (sub-check shuttle-schedules)"},
         {"name": "vp-fuzz", "path": "/verif/fuzz", "serves_properties": ["C01", "C08", "C21", "C26"], "kind_free_text": "cargo-fuzz project (libFuzzer targets c01_read, c08_filters, c21_content, c26_cmap with the oracle inside the target); run by tools/fuzz.sh as the second stage of those properties' thorough tier; artifacts are confirmed through ./check <ID> --replay"},
         {"name": "vp", "path": "/verif/harness", "serves_properties": claimed_ids, "kind_free_text": "Rust binary: seeded proptest TestRunner shards + exhaustive enumerators + process-isolated workers + spec-derived reference implementations (refpdf, refcrypto, refcodec, reffont, reftab, refpng); writes evidence and replay files"},
     ],
